@@ -10,6 +10,7 @@ import (
 	"time"
 
 	"github.com/lni/dragonboat/v4/internal/rsm"
+	pb "github.com/lni/dragonboat/v4/raftpb"
 	sm "github.com/lni/dragonboat/v4/statemachine"
 )
 
@@ -33,6 +34,7 @@ const (
 	evSnapTask   evKind = iota // apply worker: Handle returned a snapshot task
 	evIdle                     // apply worker: queue drained
 	evUpdParked                // apply worker: parked inside the user Update
+	evNodeParked               // apply worker: parked in the node callback of an entry (no lock held, task unfinished)
 	evSaveParked               // snapshot worker: parked while writing the image
 	evSaverDone                // snapshot worker: job finished
 	evPanic                    // a panic of the code under test on a worker
@@ -40,7 +42,7 @@ const (
 )
 
 func (k evKind) String() string {
-	return [...]string{"snapshot-task", "idle", "update-parked", "save-parked", "saver-done", "panic", "handle-error"}[k]
+	return [...]string{"snapshot-task", "idle", "update-parked", "node-parked", "save-parked", "saver-done", "panic", "handle-error"}[k]
 }
 
 type conEvent struct {
@@ -60,8 +62,12 @@ type conHooks struct {
 	abort       chan struct{} // closed when the case is over: every park returns at once
 	updRelease  chan struct{}
 	saveRelease chan struct{}
+	nodeRelease chan struct{}
 
 	parkIndex    uint64 // atomic; the Update call that contains this index parks (0: none)
+	nodeParkAt   uint64 // atomic; the apply worker parks in the node's ApplyUpdate callback of this index (0: none)
+	syncedLast   uint64 // atomic; on-disk: index of the last entry in the state the user SM's latest completed Sync() made durable
+	syncCalls    int32  // atomic; user Sync() calls
 	savePark     int32  // atomic; 1: the next image write parks
 	prepWait     int32  // atomic; 1: PrepareSnapshot waits (bounded) for the apply worker to queue up on StateMachine.mu
 	applyRunning int32  // atomic; 1 while the apply worker is inside its drain loop
@@ -82,6 +88,7 @@ func newConHooks() *conHooks {
 		abort:       make(chan struct{}),
 		updRelease:  make(chan struct{}, 1),
 		saveRelease: make(chan struct{}, 1),
+		nodeRelease: make(chan struct{}, 1),
 		stackBuf:    make([]byte, 256<<10),
 	}
 }
@@ -111,6 +118,25 @@ func (h *conHooks) onUpdate(ents []sm.Entry) {
 			return
 		}
 	}
+}
+
+// afterEntry runs in the node callback of an applied entry (apply worker,
+// outside StateMachine.mu; the task the entry belongs to is not finished, so
+// lastApplied has not moved yet). The real callback takes locks of the request
+// tables: the apply worker can be delayed here for any length of time.
+func (h *conHooks) afterEntry(index uint64) {
+	p := atomic.LoadUint64(&h.nodeParkAt)
+	if p == 0 || p != index {
+		return
+	}
+	atomic.StoreUint64(&h.nodeParkAt, 0)
+	atomic.StoreInt32(&h.applyHeld, 1)
+	h.send(conEvent{kind: evNodeParked, idx: index})
+	select {
+	case <-h.nodeRelease:
+	case <-h.abort:
+	}
+	atomic.StoreInt32(&h.applyHeld, 0)
 }
 
 // onPrepare runs inside PrepareSnapshot (snapshot worker, under the read lock).
@@ -282,6 +308,18 @@ func (s *hookDiskSM) Update(ents []sm.Entry) ([]sm.Entry, error) {
 	return s.diskSM.Update(ents)
 }
 
+// Sync runs under the write lock of the StateMachine (apply worker: periodic
+// sync task; snapshot worker: concurrentSave). What it made durable is
+// published for the snapshot worker's oracle.
+func (s *hookDiskSM) Sync() error {
+	err := s.diskSM.Sync()
+	if err == nil {
+		atomic.StoreUint64(&s.h.syncedLast, s.store.states[s.store.synced].Last)
+		atomic.AddInt32(&s.h.syncCalls, 1)
+	}
+	return err
+}
+
 func (s *hookDiskSM) PrepareSnapshot() (interface{}, error) {
 	ctx, err := s.diskSM.PrepareSnapshot()
 	if c, ok := ctx.(*kv); ok && err == nil {
@@ -292,6 +330,18 @@ func (s *hookDiskSM) PrepareSnapshot() (interface{}, error) {
 
 func (s *hookDiskSM) SaveSnapshot(ctx interface{}, w io.Writer, stopc <-chan struct{}) error {
 	return s.h.save(ctx, w, s.p.pad)
+}
+
+// hookNode is the rsm.INode of A: the fakeNode plus the parking point between
+// two entries of a task.
+type hookNode struct {
+	*fakeNode
+	h *conHooks
+}
+
+func (n *hookNode) ApplyUpdate(e pb.Entry, r sm.Result, rejected bool, ignored bool, notifyRead bool) {
+	n.fakeNode.ApplyUpdate(e, r, rejected, ignored, notifyRead)
+	n.h.afterEntry(e.Index)
 }
 
 // startHooked is replica.start() with the parkable user state machine: a
@@ -317,10 +367,14 @@ func (r *replica) startHooked(h *conHooks) {
 	}
 	inc.nsm = rsm.NewNativeSM(cfg, ism, inc.node.stopc)
 	inc.snap = newSnapshotter(r.disk, cfg.ShardID, r.replicaID)
-	inc.sm = rsm.NewStateMachine(inc.nsm, inc.snap, cfg, inc.node, r.disk.fs)
+	inc.sm = rsm.NewStateMachine(inc.nsm, inc.snap, cfg, &hookNode{fakeNode: inc.node, h: h}, r.disk.fs)
 	inc.sm.Loaded()
 	r.cur = inc
 	r.doRecover(rsm.Task{Recover: true, Initial: true, NewNode: len(r.past) == 0})
 	inc.startAt = inc.sm.GetLastApplied()
 	r.pushed = inc.startAt
+	if r.store != nil {
+		// what Open found is durable
+		atomic.StoreUint64(&h.syncedLast, r.store.states[r.store.synced].Last)
+	}
 }
